@@ -80,6 +80,20 @@ static Case cases[] = {
              return printf("expected F1 90 80 80, got %u units starting %02X\n", s->Length(), (unsigned char)s->First()[0]), 1;
          return 0;
      }},
+    // ---- C08
+    {"stringify_control_char_escaped", [] {
+         Value<char> v;
+         v += "a\x01" "b";
+         String<char> t = v.Stringify();
+         for (SizeT i = 0; i < t.Length(); i++)
+             if ((unsigned char)t.First()[i] < 0x20)
+                 return printf("raw control character %#x in JSON text\n", t.First()[i]), 1;
+         Value<char> w = JSON::Parse(t.First(), t.Length());
+         const String<char> *s = w.GetValue(0) ? w.GetValue(0)->GetString() : nullptr;
+         if (s == nullptr || s->Length() != 3 || memcmp(s->First(), "a\x01" "b", 3) != 0)
+             return printf("round trip lost the string: %s\n", t.First()), 1;
+         return 0;
+     }},
     // ---- C01 template scanner / renderer
     {"tmpl_operator_lookahead", [] {
          char *p = exact("1|", 2);
